@@ -8,6 +8,7 @@ Open Scope Z_scope.
 Section Term.
   Variable F : list (Z * tok) -> tok.
   Variable cfg : config.
+  Hypothesis Hnowin : window cfg = None.
 
   (** * the reference's account of pendingResponses and of termination *)
   Definition held (stops : list str) (pend' : list str) : bool :=
@@ -162,13 +163,13 @@ Section Term.
     view kv' (q_slot q) = enumerate 0 (s_inputs s ++ q_pending q) ->
     seq_ref_w F cfg l (s_inputs s) q W0 -> out_entry b (s_inputs s) q -> q_inputs q = [] ->
     let n := nsamples (q_req q) l in
-    sample_at F kv' b (q_ibatch q) = (ref_tok F cfg (q_keep q) W0 n, enumerate 0 (ref_win F cfg (q_keep q) W0 n)).
+    sample_at F cfg kv' b (q_ibatch q) = (ref_tok F cfg (q_keep q) W0 n, enumerate 0 (ref_win F cfg (q_keep q) W0 n)).
   Proof.
     intros Hv (Hsub & HW0 & Hw) Hout Ei n.
     assert (HCW : s_inputs s ++ q_pending q = ref_win F cfg (q_keep q) W0 n).
     { destruct Hw as [Hw|(_ & t & Ht & _)]; [|congruence]. rewrite Ei, app_nil_r in Hw. exact Hw. }
     destruct (Hout Ei) as (e & E1 & E2 & E3).
-    unfold sample_at. rewrite E1, E2, E3.
+    unfold sample_at. rewrite E1, E2, E3, (visible_c_none cfg _ _ _ Hnowin).
     replace (zlen (s_inputs s) + zlen (q_pending q) - 1) with (zlen (s_inputs s ++ q_pending q) - 1) by (rewrite zlen_app; lia).
     rewrite (visible_all kv' (q_slot q) _ Hv), sort_vis_enumerate, HCW. reflexivity.
   Qed.
@@ -311,7 +312,7 @@ Section Term.
       - right. exists rs. rewrite Lext. apply in_or_app. auto. }
     rewrite E. destruct (p_batch p) as [|e0 b0] eqn:Eb.
     { cbn [fst]. unfold inv3. cbn [seqs log]. split; [intros k q G; apply (M1 k q G)|split; [exact M2|exact M3]]. }
-    rewrite <- Eb in Hmp, H2p |- *. set (kv' := kv_forward (p_kv p) (p_batch p)).
+    rewrite <- Eb in Hmp, H2p |- *. rewrite (kv_evict_none cfg _ _ Hnowin). set (kv' := kv_forward (p_kv p) (p_batch p)).
     destruct (post_all F cfg kv' (p_batch p) (p_slots p) (p_seqs p)) as [[[sl' qs'] ev]|] eqn:EP; [|exact (conj T1 (conj T2 T3))].
     cbn [fst]. destruct (post_all_spec F _ _ _ _ _ _ _ _ EP) as (L1 & L2 & Hfr & Hown & Hnone).
     destruct (post_all_events F cfg _ _ _ _ _ _ _ EP) as (Hevreq & Hevns & Hevown).
